@@ -12,6 +12,7 @@ from collections import Counter
 
 import vlib
 from props import c17gate
+from props import c17b
 
 
 def hx(s):
@@ -347,151 +348,28 @@ DIVERGE = ("3 1 T0:-:- Q0,1,1 P0,1,1 T0:1:1 T0:1:1 H0 H0 T0:1:1 H0 T1:-:- Q1,2,2
            + " ".join(["T1:02:02 H0 H0"] * 4))
 
 
-class Mirror:
-    """Rough python mirror of the election model, used ONLY to aim the generator at enabled
-    events (which calls exist, who is electing, how many checks are in flight)."""
-
-    def __init__(self, n, limit):
-        self.n, self.limit = n, limit
-        self.term = [0] * n
-        self.leader = [None] * n
-        self.el = [None] * n
-        self.calls = {}
-        self.hnet = []
-        self.fc = [[0] * n for _ in range(n)]
-
-    def expect(self):
-        return (self.n - 1 + 1) // 2 + 1
-
-    def loop(self, c, vc, i):
-        if i < self.n - 1 and vc < self.expect():
-            self.el[c] = [vc, i]
-        else:
-            self.el[c] = None
-            if vc >= self.expect():
-                self.leader[c] = c
-
-    def apply(self, ev):
-        k, a = ev[0], ev[1:]
-        if k == "T":
-            i, d, ok = a.split(":")
-            i = int(i)
-            if self.el[i]:
-                return
-            if self.leader[i] == i:
-                for p in range(self.n):
-                    if p == i:
-                        continue
-                    if str(p) in d:
-                        self.hnet.append((p, self.term[i]))
-                    self.fc[i][p] = 0 if str(p) in ok else self.fc[i][p] + 1
-            else:
-                self.term[i] += 1
-                self.leader[i] = None
-                for p in range(self.n):
-                    if p != i:
-                        self.calls[(i, self.term[i], p)] = ["req", None]
-                self.loop(i, 1, 0)
-        elif k in "QPXE":
-            c, t, m = [int(x) for x in a.split(",")]
-            call = self.calls.get((c, t, m))
-            if not call:
-                return
-            if k == "Q" and call[0] == "req" and not self.el[m]:
-                if self.term[m] < t:
-                    self.term[m] = t
-                    self.leader[m] = None
-                    call[:] = ["rep", ("y", t)]
-                else:
-                    call[:] = ["rep", ("n", self.term[m])]
-            elif k == "P" and call[0] == "rep":
-                r = call[1]
-                call[0] = "fin"
-                if self.el[c] and self.term[c] == t:
-                    vc, i = self.el[c]
-                    if r[0] == "y":
-                        vc += 1
-                    elif r[0] == "n" and self.term[c] < r[1]:
-                        vc, i = 0, self.n - 1
-                    self.loop(c, vc, i + 1)
-            elif k == "X" and call[0] in ("req", "rep"):
-                call[0] = "fin"
-            elif k == "E" and call[0] in ("req", "rep"):
-                call[:] = ["rep", ("e", 0)]
-        elif k in "HD":
-            j = int(a)
-            if j < len(self.hnet):
-                to, t = self.hnet[j]
-                if k == "H" and self.el[to]:
-                    return
-                del self.hnet[j]
-                if k == "H" and t >= self.term[to]:
-                    self.term[to] = t
+Mirror = c17b.Mirror
+parse_obs = c17b.parse_obs
 
 
 def gen_scripts(ctx):
     rng = ctx.rng
     quick = ctx.tier == "quick"
     scripts = [FLAP, DIVERGE]
+    # undirected stream: any enabled event, plus client requests
     for _ in range(40 if quick else 600):
         n = rng.choice([3, 3, 4, 5])
         limit = rng.choice([1, 2, 3])
         m = Mirror(n, limit)
         evs = []
         for _ in range(rng.randrange(8, 40 if quick else 70)):
-            opts = []
-            live = [c for c in m.calls if m.calls[c][0] in ("req", "rep")]
-            r = rng.random()
-            if r < 0.3 or not (live or m.hnet):
-                i = rng.randrange(n)
-                # leaders tick more often than the others
-                leaders = [x for x in range(n) if m.leader[x] == x and not m.el[x]]
-                if leaders and rng.random() < 0.6:
-                    i = rng.choice(leaders)
-                others = [str(p) for p in range(n) if p != i]
-                mode = rng.random()
-                if mode < 0.5:
-                    d = ok = "".join(others)
-                else:
-                    d = "".join(p for p in others if rng.random() < 0.7)
-                    ok = "".join(p for p in others if rng.random() < 0.7)
-                ev = "T%d:%s:%s" % (i, d or "-", ok or "-")
-            elif live and (r < 0.85 or not m.hnet):
-                c = rng.choice(live)
-                st = m.calls[c][0]
-                x = rng.random()
-                kind = ("Q" if st == "req" else "P") if x < 0.8 else ("X" if x < 0.9 else "E")
-                if rng.random() < 0.05:
-                    kind = rng.choice("QPXE")
-                if (kind == "P" and st == "rep" and m.calls[c][1] and m.calls[c][1][0] == "e"
-                        and m.el[c[0]] and m.term[c[0]] != c[1]):
-                    # ClusterNode.handleRpcResponse closes the endpoint on a failed call, which also fails the
-                    # candidate's CURRENT call to the same peer; the model treats calls as independent (manifest
-                    # note), so the error reply of an older call is lost instead while the candidate is electing
-                    kind = "X"
-                ev = "%s%d,%d,%d" % (kind, c[0], c[1], c[2])
-            else:
-                j = rng.randrange(len(m.hnet) + (1 if rng.random() < 0.05 else 0))
-                ev = ("H%d" if rng.random() < 0.85 else "D%d") % j
+            ev = c17b.random_event(rng, m, n)
             m.apply(ev)
             evs.append(ev)
         scripts.append("%d %d %s" % (n, limit, " ".join(evs)))
+    # directed: a follower that misses elections and checks; a leader that loses its peers (c17b.py)
+    scripts += c17b.extra_scripts(ctx)
     return list(dict.fromkeys(scripts))
-
-
-def parse_obs(ans):
-    """-> list of per-event observations; each a list of (term, leader, ring class, partitioned, active) or 'PANIC...'"""
-    res = []
-    for ev in ans.split("|"):
-        if ev.startswith("PANIC") or ev.startswith("HANG"):
-            res.append(ev)
-        elif ev:
-            nodes = []
-            for i, nd in enumerate(ev.split(";")):
-                t, l, cls, part, act = nd.split(",")
-                nodes.append((int(t), l, cls, part, act))
-            res.append(nodes)
-    return res
 
 
 def election_monitors(scripts, table):
@@ -531,7 +409,37 @@ def election_monitors(scripts, table):
                     if x[0] == last[L][0] and x[1] == str(L) and x[2] != last[L][2]:
                         fails.append(("el-ring-diverges", sc,
                                       "node %d follows leader %d in term %d, has accepted 4 rounds of its health checks, and still has a different ring" % (i, L, x[0])))
-    return fails
+    return fails + c17b.monitors(scripts, table)
+
+
+def shrink_script(ctx, script, law, rounds=6):
+    """-> (smaller script, implementation's answer, detail) on which [law] still fails on the implementation, or None"""
+    w = script.split()
+    head, evs = w[:2], w[2:]
+    best = None
+    for _ in range(rounds):
+        cands = []
+        for size in sorted(set([max(1, len(evs) // 2), max(1, len(evs) // 4), 3, 2, 1]), reverse=True):
+            for j in range(0, len(evs), 1 if size <= 3 else size):
+                c = evs[:j] + evs[j + size:]
+                if c and len(c) < len(evs):
+                    cands.append(" ".join(head + c))
+        for j in range(1, len(evs)):
+            cands.append(" ".join(head + evs[:j]))
+        cands = list(dict.fromkeys(cands))[:400]
+        if not cands:
+            break
+        rc, ans, _ = ctx.run_main_lines("c17", cands, timeout=600)
+        if rc != 0 or len(ans) != len(cands):
+            break
+        t = dict(zip(cands, ans))
+        hits = [(c, d) for l, c, d in election_monitors(cands, t) if l == law]
+        if not hits:
+            break
+        c, d = min(hits, key=lambda x: len(x[0].split()))
+        best = (c, t[c], d)
+        evs = c.split()[2:]
+    return best
 
 
 def run_election(ctx):
@@ -559,17 +467,29 @@ def run_election(ctx):
         return
     table = dict(zip(scripts, impl))
     fails = election_monitors(scripts, table)
+    # the first failing script of every law is shrunk on the implementation (events removed while the same
+    # law still fails on the real code's trace) and reported first
+    known = set(f["key"] for f in ctx.load_findings() if f["property"] == ctx.pid)
+    shrunk, seen_laws = [], set()
     for law, case, detail in fails:
+        if law in seen_laws or law in known or ctx.replay:
+            continue
+        seen_laws.add(law)
+        small = shrink_script(ctx, case, law)
+        if small and small[0] != case:
+            table[small[0]] = small[1]
+            shrunk.append((law, small[0], small[2] + "; shrunk from: " + case))
+    for law, case, detail in shrunk + fails:
         ctx.violation("monitor", law, "law %s fails on the implementation: %s (%s)" % (law, case, detail),
                       {"case": case, "impl": table.get(case), "law": law, "detail": detail})
-    norm = lambda a: a
     # a script on which the implementation died is reported by the monitor law el-health-panic (with the
     # script as failing input); it is not also a correspondence mismatch without a failing input
-    died = set(f[1] for f in fails if f[0] in ("el-health-panic", "el-hang"))
-    mism = [(c, i, m) for c, i, m in zip(scripts, impl, model) if i != m and c not in died]
+    # likewise a script on which a law of the property fails is reported with that law
+    died = set(f[1] for f in fails if f[0] != "el-ring-diverges")
+    mism = [(c, c17b.normalise(c, i), m) for c, i, m in zip(scripts, impl, model) if c17b.normalise(c, i) != m and c not in died]
     if mism:
         c, i, m = mism[0]
-        k = next((j for j, (x, y) in enumerate(zip(norm(i).split("|"), m.split("|"))) if x != y), -1)
+        k = next((j for j, (x, y) in enumerate(zip(i.split("|"), m.split("|"))) if x != y), -1)
         ctx.violation("corr", "correspondence-election",
                       "election model and the real Cluster code disagree on %d of %d scripts, first at event %d of: %s: impl=%s model=%s"
                       % (len(mism), len(scripts), k, c, i.split("|")[k] if 0 <= k < len(i.split("|")) else i[-200:],
@@ -585,8 +505,9 @@ def run_election(ctx):
         "scripts_ending_with_a_self_leader": leaders, "max_term_at_end": dict(sorted(terms.items())),
         "cluster_sizes": dict(Counter(sc.split()[0] for sc in scripts)),
         "correspondence_mismatches": len(mism), "monitor_failures": len(fails),
-        "rule": "2 fixed scenarios (the fixed follower crash, the ring-divergence finding) + seeded random scripts for 3/4/5 real Cluster values: ticks (vote_after=1), vote requests/replies delivered in any order, lost, failed, health checks delivered in any order or dropped, per-peer delivery/outcome of every leader check; generation aimed at enabled events by a python mirror of the model; no election-timer event (the real timer cannot be injected without a hook: see manifest note)",
+        "rule": "4 fixed scenarios (the fixed follower crash, the ring-divergence finding, the follower of a leader re-elected in a later term that gets the delayed request of the election it missed, the leader that loses both followers with every kind of client request before and after) + seeded random scripts for 3/4/5 real Cluster values: ticks (vote_after=1), vote requests/replies delivered in any order, lost, failed, health checks delivered in any order or dropped, per-peer delivery/outcome of every leader check, client requests dispatched by the real Session.dispatch on any node; + directed scripts (tools/props/c17b.py): a follower that hears nothing of 1-3 elections (same node re-elected with probability 0.55) nor of part of the checks and then gets everything in flight (checks of earlier/own/later terms from the leader it follows, another one, or none, with equal and different signatures and node lists, then the delayed vote requests), and a leader whose checks of some peers fail for node_fail_after-1 .. +2 heartbeats with requests of all ten kinds (and of no kind) after every heartbeat; generation aimed at enabled events by a python mirror of the model; no election-timer event (the real timer cannot be injected without a hook: see manifest note)",
     }
+    ctx.coverage["election"].update(c17b.coverage(scripts, table))
     ctx.coverage["evaluations"] = ctx.coverage.get("evaluations", 0) + len(scripts)
     ctx.coverage["traces_validated_against_impl"] = ctx.coverage.get("traces_validated_against_impl", 0) + len(scripts)
     ctx.coverage.setdefault("trusted_base", []).append(
